@@ -19,14 +19,25 @@ pub enum Number {
 }
 
 impl Number {
-    pub fn negate(&self) -> Option<Self> {
+    /// Negate a literal. The kind is kept, a sign that is already present is removed
+    /// (`-(-5)` is `5`, not `--5`), and negating the smallest value of an integer kind is
+    /// an error, exactly as it is at run time.
+    pub fn negate(&self) -> Result<Option<Self>> {
+        use anyhow::Context;
         use Number::*;
-        Some(match self {
-            Integer(x) => Integer("-".to_owned() + x),
-            BigInt(x) => Integer("-".to_owned() + x),
-            Float(x) => Float("-".to_owned() + x),
-            Byte(_) => return None,
-        })
+
+        const OVERFLOW: &str =
+            "this negation is guaranteed to fail at runtime, so it cannot be allowed";
+
+        Ok(Some(match self {
+            Integer(x) => Integer(x.parse::<i32>()?.checked_neg().context(OVERFLOW)?.to_string()),
+            BigInt(x) => BigInt(x.parse::<i128>()?.checked_neg().context(OVERFLOW)?.to_string()),
+            Float(x) => match x.strip_prefix('-') {
+                Some(positive) => Float(positive.to_owned()),
+                None => Float("-".to_owned() + x),
+            },
+            Byte(_) => return Ok(None),
+        }))
     }
 }
 
